@@ -56,7 +56,7 @@ def codec_of(prog, R, role):
     return None
 
 
-def check(ctx):
+def _check_own(ctx):
     prog = ctx.prog
     R = Roles(prog)
     n_fields = 0
@@ -229,3 +229,10 @@ def check_bounded_writer_contract(ctx, prog, R):
                   "longer than the file's chunk size panics in debug builds" % (", ".join(why)[:160], names.get((x.id, i + 1), x.id)),
                   where=where(fn, b), expected="the unbounded writer (write_all) for payloads, or a dominating length guard")
     ctx.sample({"rule": "bounded-buffer-contract", "contracted_functions": sorted("%s#%d" % (short(k[0]), k[1]) for k in contracted), "call_sites_checked": n})
+
+
+def check(ctx):
+    _check_own(ctx)
+    from .engine import import_rules
+    # clause 2: the slot is sized from the estimate and honoured by both record writers
+    import_rules(ctx, "c06", {"writer-arms", "alloc"})
